@@ -13,7 +13,8 @@ SHUT_RD, SHUT_WR, SHUT_RDWR = 0, 1, 2
 class Pipe(object):
     """One direction of a connection."""
     __slots__ = ('segs', 'rcvbuf', 'fin_queued', 'fin', 'rst', 'auto', 'latency', 'name',
-                 'total_written', 'total_delivered', 'hold', 'boundaries', 'rst_after_segs')
+                 'total_written', 'total_delivered', 'hold', 'boundaries', 'rst_after_segs',
+                 'capacity')
 
     def __init__(self, name):
         self.name = name
@@ -29,6 +30,14 @@ class Pipe(object):
         self.hold = False        # True: network actor never delivers (peer->provider under driver control)
         self.boundaries = []     # absolute stream offsets where a write ended (PDU-ish boundaries)
         self.rst_after_segs = False
+        # bytes the two kernels hold between writer and reader (send buffer + in flight +
+        # receive buffer); None = unlimited.  A writer that finds it full blocks (flow control).
+        self.capacity = None
+
+    def room(self):
+        if self.capacity is None:
+            return 1 << 40
+        return self.capacity - len(self.rcvbuf) - sum(len(s_[1]) for s_ in self.segs)
 
     def inflight(self):
         return sum(len(s[1]) for s in self.segs)
@@ -122,6 +131,8 @@ class SimSocket(object):
         if self.on_send is not None:
             self.on_send(self, data)
         tx = self.tx
+        if tx.capacity is not None and not tx.auto and len(data) > tx.room():
+            return self._send_throttled(data)
         tx.total_written += len(data)
         tx.boundaries.append(tx.total_written)
         if tx.auto:
@@ -129,6 +140,35 @@ class SimSocket(object):
             tx.total_delivered += len(data)
         else:
             tx.segs.append([sim.now + tx.latency, bytearray(data)])
+        return None
+
+    def _send_throttled(self, data):
+        """The peer is not reading fast enough: hand over what fits, wait for room, repeat.  As
+        in CPython, the socket timeout bounds the WHOLE sendall()."""
+        sim = self.sim
+        tx = self.tx
+        deadline = None if self.timeout is None else sim.now + self.timeout
+        pos = 0
+        sim.bump('net.send_blocked_on_full_buffers')
+        while pos < len(data):
+            room = tx.room()
+            if room <= 0:
+                left = None if deadline is None else max(0.0, deadline - sim.now)
+                ok = sim.wait(lambda: tx.room() > 0 or self.rx.rst or self.closed, left,
+                              'sendall-full')
+                if self.closed:
+                    raise OSError(errno.EBADF, 'Bad file descriptor')
+                if self.rx.rst:
+                    raise ConnectionResetError(errno.ECONNRESET, 'Connection reset by peer')
+                if not ok and tx.room() <= 0:
+                    sim.bump('net.send_timeout')
+                    raise _realsocket.timeout('timed out')
+                continue
+            part = data[pos:pos + room]
+            pos += len(part)
+            tx.total_written += len(part)
+            tx.segs.append([sim.now + tx.latency, bytearray(part)])
+        tx.boundaries.append(tx.total_written)
         return None
 
     def send(self, data):
@@ -351,6 +391,7 @@ class Net(object):
         ab.auto, ba.auto = auto_ab, auto_ba
         ab.hold, ba.hold = hold_ab, hold_ba
         ab.latency = ba.latency = self.latency
+        ab.capacity = ba.capacity = getattr(self, 'capacity', None)
         a.tx, a.rx = ab, ba
         b.tx, b.rx = ba, ab
         a.peer, b.peer = b, a
@@ -603,6 +644,8 @@ class SocketNS(object):
 
     def create_connection(self, addr, timeout=None, source_address=None):
         s = self.net.socket()
+        if timeout is not None:
+            s.settimeout(timeout)       # as the real one: the time-out stays on the socket
         s.connect(addr)
         return s
 
